@@ -35,7 +35,21 @@ def nonvacuity(ctx):
 
 def run(ctx):
     if ctx.replay:
+        # dispatch the replay file to the module that wrote it
+        _rp = vlib.json.load(open(ctx.replay)).get("replay")
+        if isinstance(_rp, dict) and "beh" in _rp and "listen" in _rp:          # updial_extra (drv_updial)
+            import updial_extra
+            return updial_extra.run_extra(ctx)
+        if isinstance(_rp, dict) and _rp.get("mode") == "arm":                   # pipeconn_c07 (drv_pipeconn, deadline arming)
+            import pipeconn_c07
+            return pipeconn_c07.run_extra(ctx)
+        if isinstance(_rp, dict) and _rp.get("driver") == "drv_pipeline":        # pipeconn_c08 / pipeline_part
+            import pipeline_part
+            return pipeline_part.replay(ctx, _rp)
         return pl.replay(ctx)
+    # the upstream-level dial/lifecycle extension mostly waits for real 5 s dial timeouts: run it concurrently
+    import updial_extra
+    _bg_updial = vlib.background(ctx, updial_extra.run_extra, "updial_extra")
     T = ctx.thorough()
     W = 8 if T else 4
     ctx.assumptions += [
@@ -136,3 +150,7 @@ def run(ctx):
     # spec/PipeConnArm.tla resp. LazyPipe.tla, harness/drv_pipeconn, drv_pipeline (checks/pipeconn_c07.py)
     import pipeconn_c07
     pipeconn_c07.run_extra(ctx)
+
+    # ---- the layer above the transports: dial phases, dial timeout and Close through the real upstream.NewUpstream
+    # against loopback servers (spec/UpDial.tla, harness/drv_updial, checks/updial_extra.py)
+    _bg_updial.join()
